@@ -116,7 +116,7 @@ pub fn read_back(b: &Board) -> Position {
     p.turn = ref_color(b.turn());
     p.half = b.half_move_clock() as u32;
     p.full = b.full_move_clock() as u32;
-    let dbg = format!("{b:?}");
+    let dbg = debug_head(b);
     for line in dbg.lines() {
         if let Some(r) = line.strip_prefix("castle rights: ") {
             for (i, ch) in ['K', 'Q', 'k', 'q'].iter().enumerate() {
@@ -134,6 +134,26 @@ pub fn read_back(b: &Board) -> Position {
         }
     }
     p
+}
+
+/// the header lines of the Debug rendering (turn .. castle rights), without formatting the
+/// 8x8 board that follows: the writer refuses everything after "move zobrist"
+pub fn debug_head(b: &Board) -> String {
+    use std::fmt::Write;
+    struct Head(String);
+    impl Write for Head {
+        fn write_str(&mut self, s: &str) -> std::fmt::Result {
+            self.0.push_str(s);
+            if self.0.contains("\nmove zobrist") {
+                Err(std::fmt::Error)
+            } else {
+                Ok(())
+            }
+        }
+    }
+    let mut h = Head(String::with_capacity(128));
+    let _ = write!(h, "{b:?}");
+    h.0
 }
 
 /// field-by-field description of how a real board differs from the reference position
